@@ -9,4 +9,6 @@ GenInit == Init /\ hist = <<Call(obs)>>
 GenSpec == GenInit /\ [][Next /\ hist' = Append(hist, Call(obs'))]_<<vars, hist>>
 Skel == <<tab, cyc>>
 Emit == PrintT(<<"BEHAV", ToJson(Append(hist, [a |-> obs'.a, arg |-> obs'.arg, exp |-> obs'.exp]))>>)
+\* quick text export: texts are judged on the empty table and on tables of one destination (two entries)
+GenSpec2 == GenInit /\ [][Len(tab) <= 2 /\ Next /\ hist' = Append(hist, Call(obs'))]_<<vars, hist>>
 =============================================================================
